@@ -219,6 +219,30 @@ def _detector_case(ctx, label, red_shape, sym, periodic):
                 w = to_rat(rec_f[ft].data[flat(reg_f, c, q)])
                 if not g.equals(w):
                     bad = bad or (f"{ft}{'xyz'[c]} at doubled record cell {q}", g.fmt()[:240], w.fmt()[:240])
+    # the same for a detector that lists a subset of components in non-canonical order: the record rows are in
+    # canonical order (Ex..Hz) whatever order the user wrote, and the parities must follow the rows
+    sub = ("Ez", "Hx", "Ex")
+    canon = [("E", 0), ("E", 2), ("H", 0)]
+    det2 = Obj(FD, dict(components=sub, reduce_volume=False, exact_interpolation=True, name="det"), "det")
+    per = len(rec_r["E"].data) // 3
+    rows2 = list(rec_r["E"].data[0:per]) + list(rec_r["E"].data[2 * per : 3 * per]) + list(rec_r["H"].data[0:per])
+    rec2 = NdArr((1, 3) + reg_r, rows2)
+    try:
+        out2 = it_u.call(it_u.closure_of(f), [det2, {"fields": rec2}, touched, len(elec)], {})["fields"]
+    except Raised as r:
+        raise AnalysisError(f"_unfold_one_detector raises: {r}")
+    if not (isinstance(out2, NdArr) and out2.shape == (1, 3) + reg_f):
+        bad = bad or ("shape (subset)", getattr(out2, "shape", out2), (1, 3) + reg_f)
+    else:
+        for r_, (ft, c) in enumerate(canon):
+            for q in itertools.product(*[range(m) for m in reg_f]):
+                if any(a in (0, 1) and q[a] == 0 for a in elec):
+                    continue
+                n += 1
+                g = to_rat(out2.data[flat(reg_f, r_, q)])
+                w = to_rat(rec_f[ft].data[flat(reg_f, c, q)])
+                if not g.equals(w):
+                    bad = bad or (f"{ft}{'xyz'[c]} (components listed as {sub}) at doubled record cell {q}", g.fmt()[:240], w.fmt()[:240])
     ctx.ob("R33.4", label + ":record-unfolding", bad is None and n >= 48, "unfolding the reduced co-located record with the repo's detector unfolding reproduces the doubled scene's record on both sides of the plane (all cells whose mirror partner lies inside the reduced record)" + (f" — differs for {bad[0]}" if bad else ""), bad[1] if bad else f"{n} entries", bad[2] if bad else "doubled-scene record")
 
 
